@@ -169,10 +169,62 @@ def run(chk):
             impl_outs.append([-1, err_code(exc)])
             chk.count("error_" + type(exc).__name__)
             chk.note_case(flat, False)
+    # ---- numbering histories (fn 2): add_subregion / clear_subregions on a record without regions
+    from antismash.common.secmet.test.helpers import DummySubRegion
+    for _ in range(total // 3):
+        n = 400
+        record = build_record(n, False, [])
+        ops, objs, used = [], {}, set()
+        for step in range(rng.choice([1, 2, 3, 5, 8])):
+            if ops and rng.random() < 0.12:
+                record.clear_subregions()
+                ops.append([1])
+                continue
+            s = rng.randrange(0, n - 1)
+            e = rng.randrange(s + 1, min(n, s + 60) + 1)
+            if (s, e) in used:
+                continue
+            used.add((s, e))
+            obj = DummySubRegion(s, e)
+            record.add_subregion(obj)
+            objs[id(obj)] = len(objs) + 1
+            index = [id(o) for o in record.get_subregions()].index(id(obj))
+            ops.append([0, index, objs[id(obj)]])
+        flat = [PROP, 2, len(ops)] + [x for op in ops for x in op]
+        members = record.get_subregions()
+        out = [len(members)]
+        for pos, obj in enumerate(members):
+            number = obj.get_subregion_number()
+            if record.get_subregion(number) is not obj:
+                chk.violation("counterexample", "a sub-region's number does not identify it",
+                              {"theorem_or_correspondence": "C06_numbering_inv / Record.add_subregion", "input": {"ops": ops}, "flat": flat})
+            out += [objs[id(obj)], number]
+        cases.append(flat)
+        impl_outs.append(out)
+        chk.count("numbering_history")
+        chk.note_case(flat, len(members) >= 2, {"step": "numbering", "ops": ops, "implementation": out} if rng.random() < 0.01 else None)
     model_outs = common.correspondence(chk, cases, impl_outs,
                                        describe=lambda flat: {"function": "Record.create_regions", "length": flat[2], "areas": flat[4:]})
     chk.crosscheck_vm(cases, model_outs)
+    known_findings(chk)
     return chk.finish(RULE)
+
+
+def known_findings(chk):
+    """ recorded, unrepaired defects: printed only while the stored witness still reproduces """
+    from antismash.common.secmet.test.helpers import DummyRecord, DummySubRegion
+    for finding in common.load_known_findings("C06"):
+        if finding["status"] != "known" or finding["class"] != "origin_spanning_area":
+            continue
+        w = finding["witness"]
+        record = DummyRecord(seq="A" * w["length"], circular=w["circular"])
+        try:
+            for s, e in w["subregions"]:
+                record.add_subregion(DummySubRegion(s, e, record_length=w["length"]))
+            record.create_regions()
+        except ValueError as exc:
+            if "regions cannot overlap" in str(exc):
+                chk.known(finding["what_fails"])
 
 
 def replay(chk, path):
